@@ -141,6 +141,26 @@ HARNESSES += [
        'every string of length 0..NMAX over {space a newline tab}', q=5, t=8),
 ]
 
+# ---- error-recovery token loops ---------------------------------------------------------------------------------------
+HARNESSES += [
+ {'id': 'c15_skip_angle',
+  'property': 'C15',
+  'src': 'c15_skip.cxx',
+  'entry': 'harness_c15_skip_angle',
+  'tus': _TUS, 'skip_ctors': _SKIP,
+  'cut': ['_ZN15CPPPreprocessor14get_next_tokenEv', '_ZN8CPPTokenD2Ev', '_ZN8CPPTokenD1Ev'],
+  'keep': ['c15_skip_event'], 'tuflags': ['-fno-inline'], 'models': ['noinline.c', 'c15_toksrc.c'],
+  'nonterm_is_violation': True,
+  'desc': 'CPPPreprocessor::skip_to_angle_bracket / skip_to_end_nested (error recovery after a nested template-argument parse) on a token '
+          'source that can end anywhere; get_next_token() is a cut point with the state transitions of internal_get_next_token',
+  'domain': 'every script of NTOK token events over {other token, "," at level 0, ">" at level 0}, every amount 0..NTOK of input already consumed '
+            '(so the file may end at once), every parser state, _parsing_template_params on/off, which of the two loops',
+  'oracle': 'the loop ends (at the end of the nested parse / closing angle bracket, or at end of file) after reading each remaining token at '
+            'most once plus one read that finds the end of input; no crash, no memory-safety failure',
+  'bounds': {'quick': {'defs': {'NTOK': 4}, 'unwind': 8, 'cap': 300},
+             'thorough': {'defs': {'NTOK': 10}, 'unwind': 14, 'cap': 1200}}},
+]
+
 # ---- CPPExpression::evaluate: totality is part of what the C07 harnesses decide (crash: assertions, division checks) ----
 from cat import c07 as _c07
 for _h in _c07.HARNESSES:
@@ -151,7 +171,8 @@ for _h in _c07.HARNESSES:
 
 PROPERTY_INFO = {'C15': {'level': 'model_checking',
          'explanation': 'bounded symbolic execution (CBMC, memory-safety and unwinding assertions on, libstdc++ assertions on) of the hand-written '
-                        'scanners of the front end on every short input over small alphabets',
+                        'scanners of the front end on every short input over small alphabets; the error-recovery token loops skip_to_angle_bracket / '
+                        'skip_to_end_nested on every short token script that can end anywhere (c15_skip_angle)',
          'outside': 'totality of the bison parser and of the token loop as a whole; files longer than the bounds; unbounded-time claims; '
                     'get_number / get_literal (strtol, pstrtod and the CPPToken machinery), get_identifier, expand_defined_function / '
                     'expand_has_include_function; save_expansion and r_expand on symbolic bodies (nested scanners: over budget; the constructors '
@@ -161,6 +182,9 @@ PROPERTY_INFO = {'C15': {'level': 'model_checking',
          'assumptions': ['strings stay within the 15-byte small-string buffer inside the bounds (the heap path is cut and asserted unreachable)',
                          'vector growth in cppManifest.cxx is replaced by harness/c08_fixedvec.h (fixed capacity 8, overflow asserted)',
                          'scanner harnesses: CPPPreprocessor::get/peek replaced by a model of one non-nested input (unget slot, bytes, one '
-                         'synthesized newline, EOF)']}}
+                         'synthesized newline, EOF)',
+                         'c15_skip_angle: get_next_token() is replaced by a token source with the state transitions of internal_get_next_token '
+                         '(harness/c15_skip.cxx); in the encoded program the discarded CPPToken is left unconstructed and ~CPPToken is empty '
+                         '(models/c15_toksrc.c), the native replay uses the real CPPToken']}}
 
 NOT_APPLICABLE = {}
